@@ -143,3 +143,79 @@ DRIVERS = [
            rule='VLOOKUP over 3 tables (numeric keys, text keys differing in case, duplicate keys) x present/absent keys x every column index 0..5; exact MATCH; approximate MATCH on ascending data for keys below / between / on / beyond the data; CHOOSE for n = 1..5 and every index -1..n+2 and fractional ones',
            bound='tables of 3-4 rows'),
 ]
+
+
+# ---- seeded random columns and tables (longer scans; thorough tier: many) ---------------------------------------------------------------------
+POOL_N = [0, 1, -1, 2, 5, 5.0, -3, 3.5, 10, 100, 0.5, -2.5]
+POOL_T = ['apple', 'Apple', 'APPLE', 'b', 'B', 'banana', 'x', 'zz', 'cherry']
+
+
+def cases_random(tier, seed):
+    import random
+    rng = random.Random(seed + 15)
+    n = 60 if tier == 'quick' else 6000
+    for i in range(n):
+        length = rng.randrange(1, 41)
+        mix = rng.choice(['num', 'txt', 'mixed'])
+        pool = POOL_N if mix == 'num' else POOL_T if mix == 'txt' else POOL_N + POOL_T
+        col = [rng.choice(pool) for _ in range(length)]
+        holes = []        # (columns of numbers and texts, as the statement quantifies; what a criterion does with an EMPTY cell is not stated -
+        #                      Excel counts blanks for "<>x" - so no holes are generated: found as a false alarm of this driver's first version)
+        kind = rng.choice(['countif', 'countif', 'vlookup', 'match0', 'match1'])
+        if kind == 'countif':
+            yield dict(kind='r-countif', col=col, holes=holes, prefix=rng.choice(PREFIXES), operand=rng.choice(pool))
+        elif kind == 'vlookup':
+            keys = [rng.choice(pool) for _ in range(min(length, 12))]
+            yield dict(kind='r-vlookup', keys=keys, key=rng.choice(keys + [rng.choice(pool)]), col=rng.randrange(1, 4))
+        elif kind == 'match0':
+            yield dict(kind='r-match0', col=col[:15], key=rng.choice(col + [rng.choice(pool)]))
+        else:
+            data = sorted({rng.choice(POOL_N) for _ in range(rng.randrange(1, 10))})
+            yield dict(kind='r-match1', data=data, key=rng.choice(POOL_N + [1000, -1000]))
+
+
+def oracle_random(c):
+    from drivers.common import eval_formula
+    k = c['kind']
+    cells = {}
+    if k == 'r-countif':
+        col = c['col']
+        for i, v in enumerate(col):
+            if i not in c['holes']:
+                cells[f'A{i + 1}'] = v
+        crit = crit_text(c['prefix'], c['operand'])
+        f = f'=COUNTIF(A1:A{len(col)},"{crit}")'
+        exp = ('num', sum(1 for i, v in enumerate(col) if i not in c['holes'] and matches(v, c['prefix'], c['operand'])))
+    elif k == 'r-vlookup':
+        for r, kv in enumerate(c['keys']):
+            cells[f'A{r + 1}'] = kv
+            cells[f'B{r + 1}'] = f'v{r + 1}'
+            cells[f'C{r + 1}'] = r + 100
+        f = f'=VLOOKUP({_lit(c["key"])},A1:C{len(c["keys"])},{c["col"]},FALSE)'
+        rows = [r for r, kv in enumerate(c['keys']) if key(kv) == key(c['key'])]
+        if not rows:
+            exp = ('err', '#N/A')
+        else:
+            r = rows[0]
+            v = [c['keys'][r], f'v{r + 1}', r + 100][c['col'] - 1]
+            exp = ('text', v) if isinstance(v, str) else ('num', v)
+    elif k == 'r-match0':
+        for i, v in enumerate(c['col']):
+            cells[f'A{i + 1}'] = v
+        f = f'=MATCH({_lit(c["key"])},A1:A{len(c["col"])},0)'
+        pos = [i for i, v in enumerate(c['col']) if key(v) == key(c['key'])]
+        exp = ('num', pos[0] + 1) if pos else ('err', '#N/A')
+    else:
+        for i, v in enumerate(c['data']):
+            cells[f'A{i + 1}'] = v
+        f = f'=MATCH({c["key"]!r},A1:A{len(c["data"])},1)'
+        pos = [i for i, v in enumerate(c['data']) if v <= c['key']]
+        exp = ('num', pos[-1] + 1) if pos else ('err', '#N/A')
+    obs = eval_formula(f, cells)
+    ok = obs == exp or (obs[0] == exp[0] == 'num' and abs(obs[1] - exp[1]) < 1e-9)
+    return ok, (f, exp), obs
+
+
+DRIVERS.append(Driver('C15/B4.random', cases_random, oracle_random, nchunks=8,
+                      rule='seeded random columns of 1-40 cells (numbers incl. equal ints/floats, texts differing only in case, mixed) x random criterion: COUNTIF == linear scan; random key columns with duplicates: VLOOKUP == first matching row, exact MATCH == first position; approximate MATCH on random ascending data',
+                      bound='60 (quick) / 6000 (thorough) cases, columns <= 40 cells'))
